@@ -10,7 +10,8 @@ Local Open Scope nat_scope.
 Lemma gene_ok_wf_gene ss g patch r c ge :
   gene_ok_b ss (rows g) (cats g) patch r c ge = true -> wf_gene_b g r c ge = true.
 Proof.
-  unfold gene_ok_b, wf_gene_b. rewrite !andb_true_iff. intros [[[[[_ H2] H3] H4] H5] _]. auto.
+  intros H. apply gene_ok_inv in H. destruct H as (_ & H2 & H3 & H4 & H5 & _).
+  unfold wf_gene_b. rewrite H2, H3, H4, H5, !Nat.eqb_refl. reflexivity.
 Qed.
 
 Lemma ind_ok_wf_genome ss patch g : ind_ok_b ss patch g = true -> wf_genome_b g = true.
@@ -21,8 +22,7 @@ Proof.
     destruct (P3 r c Hr Hc) as (ge & Hge & Hok). unfold wf_cell_b. rewrite Hge.
     apply andb_true_iff. split; [eapply gene_ok_wf_gene; exact Hok|].
     apply forallb_seq. intros i Hi. unfold arg_locus.
-    pose proof Hok as Hok'. unfold gene_ok_b in Hok'. rewrite !andb_true_iff in Hok'.
-    destruct Hok' as [[[[[_ _] Hlen] Hargs] Hcats] _]. apply Nat.eqb_eq in Hlen. unfold arity in *.
+    pose proof (gene_ok_inv _ _ _ _ _ _ _ Hok) as (_ & _ & Hlen & Hargs & Hcats & _). unfold arity in *.
     destruct (nth_error (g_args ge) i) as [a|] eqn:Ea; [|apply nth_error_None in Ea; lia].
     destruct (nth_error (s_argcats (g_sym ge)) i) as [ac|] eqn:Eac; [|apply nth_error_None in Eac; lia].
     apply nth_error_In in Ea, Eac. rewrite forallb_forall in Hargs, Hcats.
@@ -49,8 +49,7 @@ Proof.
   match goal with |- context [forallb ?p ?kids] => assert (Hall : forallb p kids = true) end.
   { apply forallb_forall. intros o Ho. apply in_map_iff in Ho. destruct Ho as (i & <- & Hin).
     apply in_seq in Hin. unfold arg_locus.
-    pose proof Hok as Hok'. unfold gene_ok_b in Hok'. rewrite !andb_true_iff in Hok'.
-    destruct Hok' as [[[[[_ _] Hlen] Hargs] Hcats] _]. apply Nat.eqb_eq in Hlen. unfold arity in *.
+    pose proof (gene_ok_inv _ _ _ _ _ _ _ Hok) as (_ & _ & Hlen & Hargs & Hcats & _). unfold arity in *.
     destruct (nth_error (g_args ge) i) as [a|] eqn:Ea; [|apply nth_error_None in Ea; lia].
     destruct (nth_error (s_argcats (g_sym ge)) i) as [ac|] eqn:Eac; [|apply nth_error_None in Eac; lia].
     apply nth_error_In in Ea, Eac. rewrite forallb_forall in Hargs, Hcats.
@@ -134,7 +133,7 @@ Inductive reachable : ind -> Prop :=
     gene_ok_b ss (rows (i_gen i)) (cats (i_gen i)) patch (l_index l) (l_cat l) ge = true ->
     reachable (replace i l ge)
 | R_destroy i index ds i' ds' : reachable i -> destroy_block ss i index ds = Some (i', ds') -> reachable i'
-| R_cse i i' : reachable i -> params_swo_b (i_gen i) = true -> cse i = Some i' -> reachable i'
+| R_cse i i' : reachable i -> cse i = Some i' -> reachable i'
 | R_inc_age i : reachable i -> reachable (inc_age i).
 
 Hypothesis Hss : wf_sset_b ss = true.
@@ -145,7 +144,7 @@ Proof.
   assert (Hcats : forall g, ind_ok_b ss patch g = true -> cats g = ss_cats ss).
   { intros g Hg. apply ind_ok_iff in Hg. apply Hg. }
   induction 1 as [ds i ds' H|i pgm ds i' n ds' Hr IH H|a b ds c ds' Ha IHa Hb IHb H|i l Hr IH Hl
-                 |i l ge Hr IH Hl Hg|i index ds i' ds' Hr IH H|i i' Hr IH Hs H|i Hr IH].
+                 |i l ge Hr IH Hl Hg|i index ds i' ds' Hr IH H|i i' Hr IH H|i Hr IH].
   - apply (random_ind_wf ss Hss) in H. destruct H as (H1 & H2 & _). auto.
   - destruct IH as (I1 & I2 & I3). apply (mutation_wf ss Hss) in H; [|exact I1].
     destruct H as (M1 & M2 & M3 & _). repeat split; congruence.
@@ -156,7 +155,7 @@ Proof.
   - destruct IH as (I1 & I2 & I3). split; [apply replace_wf; assumption|]. cbn. auto.
   - destruct IH as (I1 & I2 & I3). apply (destroy_block_wf ss Hss patch) in H; [|exact I1].
     destruct H as (D1 & D2 & D3). repeat split; congruence.
-  - destruct IH as (I1 & I2 & I3). destruct (cse_wf ss patch i i' Hss I1 Hs H) as (C1 & _).
+  - destruct IH as (I1 & I2 & I3). destruct (cse_wf ss patch i i' Hss I1 H) as (C1 & _).
     split; [exact C1|]. split; [|apply Hcats; exact C1].
     unfold cse in H. destruct (cse_genome gene_cmp (i_gen i)) as [g'|] eqn:E; [|discriminate].
     inversion H as [Hi']. cbn [with_gen i_gen]. rewrite <- I2. clear - E. unfold cse_genome in E.
